@@ -15,9 +15,9 @@ LEAN_MODULES = ['Glom.Props.C01']
 FACT_FILES = ['TFacts', 'ExcFacts', 'RegFacts', 'C01Facts', 'c01']
 READY = True
 MANIFEST = dict(
-    text="Lean 4 theorems: `_t_eval`'s flat-tuple loop, with the registry (type map, fuzzy types, memo of resolved handlers) threaded through it, refines the left-to-right walk under the handler table in force at the time of the call — for every heap, target, path of any length, every handler table and handler semantics, every history of register/glom calls of one Glommer (same object on success, PathAccessError(k, e) at the first failing segment, nothing touched after it; memo coherence is an invariant of every history); `Path.from_text` = `Path(*segs)`; PathAccessError's bases; `int()` segment parsing (whitespace, underscores, Unicode digits, digit limit); per-run facts obligation by `decide` on the tables regenerated from /repo (branch table of `_t_eval`, exception MROs, default registrations, shape of `register`/`get_handler`); model tied to the code by differential execution through the compiled Lean driver.",
-    note="trusted: Lean kernel + {propext, Classical.choice, Quot.sound}; extractor; harness/driver; CPython access primitives (getattr incl. properties / __getattr__ / __slots__ / namedtuple fields / class attributes as opaque objects, subscription incl. __missing__, int() incl. whitespace/underscores/Unicode digits/digit limit) as modelled in Glom/Model/C01Py.lean and validated by the correspondence; the closest-type search of the registry is taken as 'nearest fuzzily registered class of the effective MRO' (C13 proves the search); values of class attributes are not modelled (reached as opaque objects, accesses on them are outside the domain).",
-    technique='Lean 4 refinement proof (flat ops loop with registry state = structural walk under the table in force; memo-coherence invariant over histories) + facts obligation by decide + differential correspondence',
+    text="Lean 4 theorems: `_t_eval`'s flat-tuple loop, with the registry (type map, fuzzy types, memo of resolved handlers — a remembered False included) threaded through it, refines the left-to-right walk under the handler table in force at the time of the call — for every heap, target, path of any length, every handler table and handler semantics, every history of register / glom / raise_exc=False-lookup calls on one registry (same object on success — a class attribute by its identity: the bound method of this receiver, the very object of the owner's __dict__ —, PathAccessError(k, e) at the first failing segment, nothing touched after it: the access log equals the walk's; memo coherence is an invariant of every history); `Path.from_text` (PATH_STAR on/off) = `Path(*segs)`, nested Paths flatten; `int()` segment parsing (whitespace, underscores, Unicode digits, digit limit); per-run facts obligation by `decide` on the tables regenerated from /repo (branch table of `_t_eval` and `i // 2`, exception MROs, default registrations, shape of `register`/`get_handler`, of `Path.from_text` / `Path.__init__` / `_t_child` / the AUTO string shortcut, PathAccessError carrying the caught exception); model tied to the code by differential execution through the compiled Lean driver.",
+    note="trusted: Lean kernel + {propext, Classical.choice, Quot.sound}; extractor; harness/driver; CPython access primitives (getattr incl. properties / __getattr__ / __slots__ / namedtuple fields / class attributes with their identity, subscription incl. __missing__, int() incl. whitespace/underscores/Unicode digits/digit limit) as modelled in Glom/Model/C01Py.lean and validated by the correspondence; the closest-type search of the registry is taken as 'nearest fuzzily registered class of the effective MRO' (C13 proves the search); values of C-level computed attributes (__dict__, __weakref__, int.real …) are not modelled; e.exc identity is checked where the catalogue raised the exception, otherwise only that it is a raised exception of the right class (KeyError: also its key).",
+    technique='Lean 4 refinement proof (flat ops loop with registry state = structural walk under the table in force; memo-coherence invariant over histories) + facts obligation by decide + differential correspondence (result identity incl. class attributes, error class / index / path / carried exception, access-log equality)',
     ref='DESIGN.md §3 C01')
 RULE = ('type-directed: a nested target (dict/OrderedDict/Counter/dict subclasses with __missing__, list, tuple, '
         'namedtuples, attribute objects incl. __slots__, raising/returning properties, __getattr__ fallbacks, '
@@ -25,7 +25,8 @@ RULE = ('type-directed: a nested target (dict/OrderedDict/Counter/dict subclasse
         'generated as a heap graph; a history of 1-3 glom calls and 0-2 register calls (get = getattr / getitem / '
         '_get_sequence_item / private-table lookup / raising handler / False / no get keyword, on a class of the '
         'target, one of its bases or a builtin, exact or not; before the first access, between two accesses, '
-        'after) on one Glommer (default registrations or none); each path (length 0-6 quick / 0-10 thorough) is '
+        'after; also lookups with raise_exc=False, which remember a missing handler) on one Glommer (default '
+        'registrations or none); each path (length 0-6 quick / 0-10 thorough) is '
         'derived by walking the target under the handlers in force, spelled as dotted text, Path(...) or a mixture '
         'with T steps, and a one-edit mutation stream plants an invalid segment (missing key, out-of-range / '
         'non-numeric index, int() spellings with whitespace, underscores, Unicode digits, over-long digit strings, '
@@ -33,9 +34,12 @@ RULE = ('type-directed: a nested target (dict/OrderedDict/Counter/dict subclasse
         'int() battery (random strings over digits of several Unicode blocks, underscores, signs, every kind of '
         'whitespace, near misses, digit-limit boundary) and an attribute battery (every name of dir() of every '
         'catalogue class and scalar, and names they lack); thorough also enumerates all paths of length <= 3 over a '
-        '4-name alphabet on fixed targets and all histories of length <= 4 over 3 calls and 4 registrations. '
+        '4-name alphabet on fixed targets and all histories of length <= 4 over 3 calls, 4 registrations and a raise_exc=False lookup. '
+        'spellings nest Path parts inside Path parts (also first, also empty), merge T steps into multi-step T parts, '
+        'and run with PATH_STAR on or off; every catalogue class is access-logging (attribute reads incl. property / '
+        '__getattr__ / namedtuple field, subscriptions incl. __missing__) and the log must equal the walk\'s. '
         'non-trivial = a path of length >= 2 or a failing path; distinct = distinct (heap, events)')
-TRUSTED = ['values of class attributes (bound methods, __class__, __doc__, …) are not modelled: reached as opaque objects; '
+TRUSTED = ['values of C-level computed class attributes (__dict__, __weakref__, int.real, …) are not modelled (every other class attribute is compared by identity token); '
            'handlers and class hooks come from the catalogue in harness/props/c01.py (the theorems hold for every handler semantics)']
 ASSUMPTIONS = ['the closest-type search is the nearest fuzzily registered class of the effective MRO (real bases, then '
                "glom's two duck types, then object): proved from the tree search in C13", 'PATH_STAR = True']
@@ -733,7 +737,8 @@ def gen_registration(rng, heap):
     return {'cls': cn, 'get': rng.choice(hs), 'exact': rng.random() < 0.2}
 
 
-SHAPES = ['RG', 'RG', 'GRG', 'GRG', 'GRG', 'GRGG', 'GRGRG', 'RRG', 'GRRG', 'RGRG', 'GGRG']
+SHAPES = ['RG', 'RG', 'GRG', 'GRG', 'GRG', 'GRGG', 'GRGRG', 'RRG', 'GRRG', 'RGRG', 'GGRG',
+          'QG', 'RQG', 'RQG', 'QRG', 'GRQG', 'RQGRG', 'QGQG']     # Q: a raise_exc=False lookup
 
 
 def gen_events(rng, heap, root, maxlen, with_regs):
@@ -754,6 +759,10 @@ def gen_events(rng, heap, root, maxlen, with_regs):
             events.append({'reg': regs[ri]})
             mirror.register(regs[ri])
             ri += 1
+        elif ch == 'Q':
+            # registry.get_handler('get', obj, raise_exc=False): a missing handler is remembered
+            pool = [{'r': a} for a in addrs] or [root]
+            events.append({'probe': {'target': rng.choice(pool + [root, {'i': 1}, None])}})
         else:
             if last is not None and rng.random() < 0.55:
                 g = json.loads(json.dumps(last))           # the same call again, after the registration
@@ -906,7 +915,8 @@ def exhaustive_histories(base):
                 {'reg': {'cls': 'Rec', 'get': {'table': '_tab'}, 'exact': False}},
                 {'reg': {'cls': 'Row', 'get': 'getattr', 'exact': True}},
                 {'reg': {'cls': 'Rec', 'get': False, 'exact': False}},
-                {'reg': {'cls': 'Row', 'get': None, 'exact': False}}]
+                {'reg': {'cls': 'Row', 'get': None, 'exact': False}},
+                {'probe': {'target': {'r': 2}}}]
     for L in range(1, 5):
         for evs in itertools.product(alphabet, repeat=L):
             if not any('glom' in e for e in evs):
@@ -1152,7 +1162,8 @@ def run_impl(case):
     for a, o in enumerate(objs):
         ids.setdefault(id(o), a)
     glommer = None
-    if case.get('glommer') or case.get('defaults') is False or any('reg' in e for e in case['events']):
+    if case.get('glommer') or case.get('defaults') is False or \
+            any('reg' in e or 'probe' in e for e in case['events']):
         glommer = glom.Glommer() if case.get('defaults', True) else glom.Glommer(register_default_types=False)
     call = glommer.glom if glommer is not None else glom.glom
     star = case.get('star', True)
@@ -1171,6 +1182,10 @@ def run_impl(case):
                 if r['exact']:
                     kw['exact'] = True
                 glommer.register(cls, **kw)
+                continue
+            if 'probe' in ev:
+                glommer.scope[glom.core.TargetRegistry].get_handler('get', dv(ev['probe']['target']),
+                                                                    raise_exc=False)
                 continue
             g = ev['glom']
             target = dv(g['target'])
